@@ -27,12 +27,18 @@ def r08_1(prog, out):
     sl = Slicer(prog)
     pid = R.publish_body()
     pi = prog.info(pid)
-    ctr = A.cell("TopicActor", "next_message_id")
+    ctr = A.cell("TopicActor", "next_message_id", optional=True)
+    if ctr is None:
+        out.violation("%s:counter" % prog.short(pid), prog.loc(pid), "the topic actor no longer owns the per-topic message counter: ids are not issued in the order in which "
+                      "the actor accepts the messages")
+        return
     # the per-message closure: the child body that writes the counter
     clos = [c for c in prog.facts.children(pid) if any(e.kind == "write" and not e.chain for e in prog.effects(c)
                                                        if c09.cells_of_effect(prog, prog.info(c), e) & {ctr})]
     if not clos:
-        raise CheckBroken("per-message closure (writer of next_message_id) not found inside %s" % pid)
+        out.violation("%s:counter" % prog.short(pid), prog.loc(pid), "the publish handler does not advance the per-topic counter while it accepts the messages: ids are "
+                      "not issued in acceptance order")
+        return
     cid = clos[0]
     ci = prog.info(cid)
     name = prog.short(cid)
